@@ -11,10 +11,10 @@ import z3
 CVC5 = "/usr/bin/cvc5"
 
 
-def _mk_solver(ob, timeout_ms):
+def _mk_solver(ob, timeout_ms, seed=0):
     s = z3.Solver()
     s.set("timeout", timeout_ms)
-    s.set("random_seed", 0)
+    s.set("random_seed", seed)
     for t in ob.pc:
         s.add(t)
     s.add(z3.Not(ob.goal))
@@ -177,6 +177,15 @@ def discharge(ob, timeout_ms=20000, use_cvc5=True, cross=False, shared=None):
             return ob
         s = _mk_solver(ob, timeout_ms)
         r = s.check()
+        if r == z3.unknown:
+            # the slow queries are the unstable ones: before giving up, two more attempts with other seeds (a proof
+            # found under any seed is a proof; `sat` answers go through the same model validation as always)
+            for seed in (11, 23):
+                s2 = _mk_solver(ob, timeout_ms, seed)
+                r2 = s2.check()
+                if r2 != z3.unknown:
+                    s, r = s2, r2
+                    break
         if r == z3.unknown:
             ob.time_s = time.time() - t0
             ob.backend = "z3-" + z3.get_version_string()
